@@ -236,13 +236,18 @@ func runCheck(id, tier string) int {
 		// --- witness replay: engine prediction vs real build on sampled completed paths ---
 		if !j.NoNative || j.Pkg == "main" {
 			n := 0
-			for _, s := range res.Samples {
-				if n >= witnessPerJob {
-					break
-				}
+			// sampled completed paths, then the inputs of paths the engine could not finish (concolic fallback: the
+			// path stays undecided, but a failure of the real build on its inputs is a concrete violation)
+			for _, s := range append(append([]*Sample{}, res.Samples[:min(len(res.Samples), witnessPerJob)]...), res.UnsupSamples[:min(len(res.UnsupSamples), 8)]...) {
 				n++
 				out := native(j, s.Model, "")
 				replays++
+				if s.Unsupported && out.Err == "" && !out.AssumeFailed && len(out.Failed) == 0 && out.Panic == "" && out.Crash == "" && !out.Timeout {
+					continue // nothing to compare: the engine made no prediction for this path
+				}
+				if s.Unsupported && (out.Err != "" || out.AssumeFailed) {
+					continue
+				}
 				if d := compareObserved(s, out); d != "" {
 					if len(out.Failed) > 0 || out.Panic != "" || out.Crash != "" || out.Timeout {
 						// the real build violates an assertion (or crashes) on an input the encoding accepted:
